@@ -1420,6 +1420,53 @@ pub fn level_iter_cursor(
     Some(out)
 }
 
+/// Like [`level_iter_cursor`], but the footer of table `10 + damaged` is altered before the iterator is created and only the
+/// absolute operations "first", "last", "seek" (target 0) and "seek2" (target 1) are accepted. Per step: (the call returned Ok,
+/// entry under the cursor).
+pub fn level_iter_damaged(
+    options: &DbOptions,
+    files: &[Vec<(Vec<u8>, u64, bool, Vec<u8>)>],
+    damaged: usize,
+    ops: &[&str],
+    targets: [(&[u8], u64); 2],
+) -> Option<Vec<(bool, Option<(Vec<u8>, u64, u8)>)>> {
+    use crate::versioning::file_iterators::FilesEntryIterator;
+    let mut metas = vec![];
+    for (i, entries) in files.iter().enumerate() {
+        let number = 10 + i as u64;
+        let mut b = TableBuilder::new(options.clone(), number).ok()?;
+        for e in entries {
+            b.add_entry(std::rc::Rc::new(InternalKey::new(e.0.clone(), e.1, op(e.2))), &e.3).ok()?;
+        }
+        b.finalize().ok()?;
+        let mut m = FileMetadata::new(number);
+        m.set_file_size(b.file_size());
+        let first = entries.first()?;
+        let last = entries.last()?;
+        m.set_smallest_key(Some(InternalKey::new(first.0.clone(), first.1, op(first.2))));
+        m.set_largest_key(Some(InternalKey::new(last.0.clone(), last.1, op(last.2))));
+        metas.push(Arc::new(m));
+        core::mem::forget(b);
+    }
+    if !flip_table_byte(options, 10 + damaged as u64, usize::MAX) {
+        return None;
+    }
+    let tc = Arc::new(TableCache::new(options.clone(), 10));
+    let mut it = FilesEntryIterator::new(metas, tc, ReadOptions { fill_cache: false, snapshot: None });
+    let mut out = vec![];
+    for o in ops {
+        let ok = match *o {
+            "first" => it.seek_to_first().is_ok(),
+            "last" => it.seek_to_last().is_ok(),
+            "seek" => it.seek(&InternalKey::new_for_seeking(targets[0].0.to_vec(), targets[0].1)).is_ok(),
+            "seek2" => it.seek(&InternalKey::new_for_seeking(targets[1].0.to_vec(), targets[1].1)).is_ok(),
+            _ => return None,
+        };
+        out.push((ok, if it.is_valid() { it.current().map(|(k, v)| (k.get_user_key().to_vec(), k.get_sequence_number(), v[0])) } else { None }));
+    }
+    Some(out)
+}
+
 /// Serialise a log fragment of the given type (0 Full, 1 First, 2 Middle, 3 Last) and payload and parse it back.
 /// Returns (type, payload) of the parsed fragment (None: the bytes did not parse).
 pub fn block_record_roundtrip(block_type: u8, data: &[u8]) -> Option<(u8, Vec<u8>)> {
